@@ -179,8 +179,8 @@ def check_model(m, res):
     for pid, events in C.by_pid(res.trace).items():
         occs, _ = C.occurrences(events)
         for oc in occs:
-            if oc['open'] or oc['tid'] not in disc:
-                continue
+            if oc['open'] or oc['tid'] not in disc or oc.get('debug'):
+                continue      # (-D: test.debug() stops at the first exception)
             d = disc[oc['tid']]
             pred = W.predict_test(W.with_class_flags(d), C.raised_map(oc))
             seen = [C.phase_of(ev) for ev in oc['events'] if C.phase_of(ev)]
